@@ -375,9 +375,12 @@ def run(pid, tier):
         elif m < 0.95:
             d = J.gen_merge_doc(rng)
             hist["conjunctions_of_one_keyword_group"] += 1
-        else:
+        elif hist["recursion_through_not_or_if"] < 60:
             d = J.gen_negated_recursion(rng)
             hist["recursion_through_not_or_if"] += 1
+        else:
+            d = J.gen_merge_doc(rng)
+            hist["conjunctions_of_one_keyword_group"] += 1
         if isinstance(d, bool) or J.metaschema_ok(d):
             docs.append(d)
     J.install_ordered_sets()
@@ -478,6 +481,13 @@ def run(pid, tier):
                       "sets are insertion-ordered in the correspondence run (harness installs an ordered set class into normalize.py); normal forms are compared modulo "
                       "key order, order of type/required/enum lists and the sha1 names of $defs",
                       "sha1 collision-freeness", "oracle validator: jsonschema Draft202012Validator extended with NOT_enum / NOT_multipleOf"]
+    if pid == "C16":
+        return ck.finish(level="proof", trusted=["model of normalize.py / json_pointer.py: coq/Normalize.v (tied by stream N)"],
+                         explanation="theorem C16_normal_form (coq/NormNF.v): whenever the model of normalize() returns, for every input, both merge options and duplicate "
+                                     "detection on or off, the result is in the nested normal form with every reference below the size of its own $defs; lemmas: _inline_refs "
+                                     "leaves no $ref where _to_dnf looks (RF), _to_dnf yields combinator- and reference-free alternatives, _merge keeps them, the definitions "
+                                     "table only grows; tie: stream N compares the model's normal form with the implementation's; termination on guarded recursion is observed "
+                                     "(RecursionError / alarm) and by the independent normal-form walker + check_normalized on the implementation's output")
     return ck.finish(level="other", trusted=["model of normalize.py / json_pointer.py: coq/Normalize.v (tied by stream N)"],
                      explanation="correspondence of the executable Coq model of normalize() with the implementation plus validator oracle over an instance grid; theorems in progress")
 
